@@ -185,6 +185,7 @@ void verif::verif_case(Rng & rng, long idx, const std::string & tier) {
     const int style = (int)rng.below(10);         // 0..3 dyadic, 4 state-matched rewards, 5 duplicate action, 6 dominated action, 7 ugly (non-dyadic), 8 ties at a corner, 9 dyadic
     size_t S = (size_t)rng.range(2, 3), A = 2, O = 2;
     if (rng.coin(1, 4)) S = (size_t)rng.range(2, 4);
+    if (rng.coin(1, 16)) S = 1;
     if (rng.coin(1, 8)) A = 1; else if (rng.coin(1, 4)) A = 3;
     if (rng.coin(1, 8)) O = 1; else if (rng.coin(1, 4)) O = 3;
     unsigned h = (unsigned)rng.range(1, 3);
